@@ -339,6 +339,30 @@ def repeated(spec):
     return problems
 
 
+def core_commands():
+    """every core command, called the way the documentation shows: exactly one object recorded, carrying the text it was given"""
+    from pedal.core import commands as C
+    out = []
+    calls = [('gently', lambda: C.gently('text G', label='g')), ('explain', lambda: C.explain('text E', label='e')),
+             ('guidance', lambda: C.guidance('text U', label='u')), ('compliment', lambda: C.compliment('text C', label='c')),
+             ('give_partial', lambda: C.give_partial(0.5, message='text P')), ('set_correct', lambda: C.set_correct()),
+             ('feedback', lambda: C.feedback(message='text F', label='f')), ('system_error', lambda: C.system_error('tool', 'text S')),
+             ('log', lambda: C.log('text L')), ('log-several', lambda: C.log('text', 7, sep='-')),
+             ('debug', lambda: C.debug('text D')), ('debug-several', lambda: C.debug('text D1', 'text D2'))]
+    for name, fn in calls:
+        MAIN_REPORT.full_clear()
+        rec = {'command': name, 'raised': None}
+        try:
+            fn()
+        except Exception as e:
+            rec['raised'] = type(e).__name__ + ': ' + str(e)[:80]
+        fbs = MAIN_REPORT.feedback + MAIN_REPORT.ignored_feedback
+        rec['recorded'] = [[f.label, f.message if isinstance(f.message, str) else repr(f.message), bool(f)] for f in fbs]
+        out.append(rec)
+    MAIN_REPORT.full_clear()
+    return out
+
+
 def main():
     data = json.load(sys.stdin)
     out = {'available': list(Formatter.available),
@@ -348,6 +372,7 @@ def main():
            'formatting_typed': formatting_typed() if data.get('typed') else [],
            'parents': parents() if data.get('typed') else [],
            'formatting_instances': formatting_instances() if data.get('typed') else [],
+           'core_commands': core_commands() if data.get('typed') else [],
            'overrides': [overrides(c) for c in data['overrides']]}
     json.dump(out, open(sys.argv[1], 'w'), default=str)
 
